@@ -11,6 +11,7 @@ import (
 	"fmt"
 	"os"
 	"path/filepath"
+	"runtime/pprof"
 	"sort"
 	"strings"
 	"time"
@@ -19,12 +20,38 @@ import (
 )
 
 const (
-	repoDir  = "/repo"
 	verifDir = "/verif"
 	module   = "github.com/conduitio/conduit"
 )
 
+// repoDir is the tree under check; outDir receives evidence and replay files.
+// Both can be redirected (VERIF_REPO, VERIF_OUT) so that a seeded change can be
+// checked in a scratch worktree without touching /repo or the committed evidence.
+var (
+	repoDir = envOr("VERIF_REPO", "/repo")
+	outDir  = envOr("VERIF_OUT", verifDir)
+)
+
+func envOr(k, def string) string {
+	if v := os.Getenv(k); v != "" {
+		return v
+	}
+	return def
+}
+
 func main() {
+	if pf := os.Getenv("GOSYM_CPUPROFILE"); pf != "" {
+		f, err := os.Create(pf)
+		if err == nil {
+			pprof.StartCPUProfile(f)
+		}
+	}
+	rc := realMain()
+	pprof.StopCPUProfile()
+	os.Exit(rc)
+}
+
+func realMain() int {
 	if len(os.Args) < 2 {
 		usage()
 	}
@@ -33,7 +60,7 @@ func main() {
 		if len(os.Args) < 4 {
 			usage()
 		}
-		os.Exit(runCheck(os.Args[2], os.Args[3], "", false, 0))
+		return runCheck(os.Args[2], os.Args[3], "", false, 0)
 	case "run":
 		fs := flag.NewFlagSet("run", flag.ExitOnError)
 		h := fs.String("harness", "", "harness name (comma separated)")
@@ -42,7 +69,7 @@ func main() {
 		prop := fs.String("prop", "", "property id (all its harnesses)")
 		workers := fs.Int("workers", 0, "override workers")
 		fs.Parse(os.Args[2:])
-		os.Exit(runCheck(*prop, *tier, *h, *v, *workers))
+		return runCheck(*prop, *tier, *h, *v, *workers)
 	case "replay":
 		if len(os.Args) < 3 {
 			usage()
@@ -51,10 +78,11 @@ func main() {
 		if len(os.Args) > 3 {
 			fmt.Sscan(os.Args[3], &n)
 		}
-		os.Exit(runReplay(os.Args[2], n))
+		return runReplay(os.Args[2], n)
 	default:
 		usage()
 	}
+	return 2
 }
 
 func usage() {
@@ -98,9 +126,27 @@ type HarnessDef struct {
 	Noop     []string          `json:"noop,omitempty"`
 	NoopFuncs []string         `json:"noop_funcs,omitempty"`
 	NoReplay bool              `json:"no_replay,omitempty"`
+	Rewrite  *RewriteDef       `json:"rewrite,omitempty"`
 	Expect   string            `json:"expect,omitempty"` // "violation" for reachability twins
 	Bounds   string            `json:"bounds"`           // human-readable statement of the bound
 	Outside  string            `json:"outside"`
+}
+
+// RewriteDef describes the environment seams the check inserts, textually, into
+// production sources before they are loaded (engine) or compiled (native replay):
+// every match of a rule's regex is replaced, except when its first group is
+// listed in Except. The rewritten text is regenerated from /repo on every run.
+type RewriteDef struct {
+	Import string            `json:"import"` // import spec added to each rewritten file
+	Files  []string          `json:"files"`  // relative to /repo
+	Rules  []RewriteRule     `json:"rules"`
+	Keep   map[string]string `json:"keep"` // import path fragment -> expression keeping the import used
+}
+
+type RewriteRule struct {
+	Re     string   `json:"re"`
+	To     string   `json:"to"`
+	Except []string `json:"except,omitempty"`
 }
 
 type Index struct {
